@@ -7,7 +7,7 @@ import gen_conv
 work = sys.argv[1]
 inc = os.path.join(work, 'include', 'smooth')
 os.makedirs(inc, exist_ok=True)
-hdrs = ['so2.hpp', 'so3.hpp', 'c1.hpp', 'se2.hpp', 'se3.hpp']
+hdrs = ['so2.hpp', 'so3.hpp', 'c1.hpp', 'se2.hpp', 'se3.hpp', 'galilei.hpp', 'se_k_3.hpp']
 orig = {h: open('/repo/include/smooth/' + h).read() for h in hdrs}
 def gen():
     out = os.path.join(work, 'out.lean')
